@@ -25,6 +25,7 @@ RULE = (
     "of the image rectangle; distinct = distinct (variant, H, W, stride, sigma, num_instances, keypoint tensor)"
 )
 ASSUMPTIONS = [
+    "history part: all ordered pairs (thorough: triples) of a small call alphabet chosen to collide in every shape-like cache key, each history in a forked child, compared with a fresh-process result",
     "image height and width are multiples of the output stride (the property's shape clause H/stride is only defined there)",
     "coordinates come from the alphabet {NaN,-3,-0.5,0,0.25,1,2.5,size-1,size-0.5,size+2,1e4,+inf} per axis (thorough: plus the "
     "quarter-pixel lattice -1..size+0.5); larger shapes use the reduced keypoint alphabets R12/R6/R5/R4/R3 defined in the module",
@@ -538,8 +539,37 @@ def plan(tier):
     return specs, bounds
 
 
+def history_calls():
+    """Configurations whose grids collide in shape (and sigma*stride) but not in coordinates; 1-2 animals with a missing node."""
+    out = []
+    for (hw, stride, sigma) in [((8, 12), 1, 1.5), ((16, 24), 2, 1.5), ((32, 48), 4, 1.5), ((8, 12), 2, 3.0), ((4, 6), 1, 3.0), ((16, 24), 2, 0.75), ((12, 8), 1, 1.5), ((24, 16), 2, 1.5)]:
+        f = hw[1] / 12.0
+        inst = [[[2.5 * f, 1.5 * f], [8.5 * f, 5.25 * f]], [[10.0 * f, 1.0 * f], [float("nan"), float("nan")]]]
+        for fn in ("single", "multi", "centroid"):
+            out.append((f"{fn}(hw={hw},stride={stride},sigma={sigma})", {"fn": fn, "inst": inst, "hw": hw, "stride": stride, "sigma": sigma}))
+    return out
+
+
+def history_run(entry):
+    import torch
+
+    from sleap_nn.data.confidence_maps import generate_confmaps, generate_multiconfmaps
+
+    c = entry[1]
+    inst = torch.tensor([c["inst"]], dtype=torch.float32)  # (1, 2 animals, 2 nodes, 2)
+    if c["fn"] == "single":
+        return generate_confmaps(inst[:, 0], img_hw=tuple(c["hw"]), sigma=c["sigma"], output_stride=c["stride"])
+    if c["fn"] == "multi":
+        return generate_multiconfmaps(inst, img_hw=tuple(c["hw"]), num_instances=2, sigma=c["sigma"], output_stride=c["stride"], is_centroids=False)
+    return generate_multiconfmaps(inst[:, :, 0], img_hw=tuple(c["hw"]), num_instances=2, sigma=c["sigma"], output_stride=c["stride"], is_centroids=True)
+
 def run(ctx):
     core.setup_torch()
+    # E2 part first (the parent has not called the functions yet): every ordered pair / triple of a small call alphabet
+    # in forked children, each result compared with the same call in a fresh process (history-dependent state)
+    from mc import history as _history
+
+    _history.search(ctx, history_calls(), history_run, depth=2 if ctx.tier == "quick" else 3)
     import sleap_nn
 
     ctx.notes.append(f"sleap_nn imported from {sleap_nn.__file__}")
@@ -562,6 +592,11 @@ def run(ctx):
 
 
 def replay(case):
+    if isinstance(case, dict) and case.get("kind") == "history":
+        core.setup_torch()
+        from mc import history as _history
+
+        return _history.replay(case, history_calls(), history_run)
     core.setup_torch()
     variant = case["variant"]
     cfg = (int(case["H"]), int(case["W"]), int(case["stride"]), float(case["sigma"]))
